@@ -114,6 +114,18 @@ def print_case(case):
                 print_kauri_tree(model.fit(Xo), ["n%d" % i for i in range(d + 2)])
             except Exception:  # noqa
                 pass
+    if n % 2 == 0 and n >= 2:
+        # history: the same object was fitted on other data of the SAME shape (often a tree with the same number of nodes), used for
+        # predictions and scored, then refitted: what is printed and what is predicted both describe the last fit
+        Xo = X[::-1] * -1.0 + 0.25
+        try:
+            with contextlib.redirect_stdout(io.StringIO()):
+                model.fit(Xo, None if yk is None else yk[::-1, ::-1].copy())
+                model.predict(Xo)
+                model.score(Xo, None if yk is None else yk[::-1, ::-1].copy())
+                print_kauri_tree(model)
+        except Exception:  # noqa
+            pass
     model.fit(X, yk)
     t = model.tree_
     used = sorted({f for f in t.features if f is not None})
